@@ -119,6 +119,8 @@ class Ctx:
         self.sidecars = {}
         self.noop_calls = {"print"}
         self.dyn_getattr = {}   # function qualname -> contract name for getattr with computed names
+        self.event_calls = {}   # "logger.warning" -> contract name (calls that are otherwise dropped)
+        self.structural = []
 
     def source(self, relpath):
         if relpath not in self.sources:
@@ -132,7 +134,9 @@ class Ctx:
             c = self.classes.setdefault(cname, {"bases": [], "fields": {}, "alias": {}, "invariant": {}, "wf": {}})
             c["bases"] = cd.get("bases", c["bases"])
             for f, s in cd.get("fields", {}).items():
-                c["fields"][f] = parse_sort(s) if s != "py" else "py"
+                c["fields"][f] = s if (s == "py" or s.startswith("dotted:")) else parse_sort(s)
+            if "callable_of" in cd:
+                c["callable_of"] = cd["callable_of"]
             c["alias"].update(cd.get("alias", {}))
             c["invariant"].update(cd.get("invariant", {}))
             c["wf"].update(cd.get("wf", {}))
@@ -147,6 +151,8 @@ class Ctx:
         self.names.update(getattr(mod, "NAMES", {}))
         self.noop_calls |= set(getattr(mod, "NOOP_CALLS", []))
         self.dyn_getattr.update(getattr(mod, "DYN_GETATTR", {}))
+        self.event_calls.update(getattr(mod, "EVENT_CALLS", {}))
+        self.structural += list(getattr(mod, "STRUCTURAL", []))
 
     # ---- class table helpers
     def mro(self, cls):
@@ -307,7 +313,9 @@ class Task:
             raise Unsupported(f"field {cls}.{field} is not declared in the sidecar (contract/code mismatch)")
         dcls, sort = d
         if sort == "py":
-            raise Unsupported(f"field {cls}.{field} is python-level; cannot be read symbolically")
+            return VOpaque(f"{cls}.{field}")
+        if isinstance(sort, str) and sort.startswith("dotted:"):
+            return VDotted(sort[7:])
         if heap is None:
             arrs = self.heap_arrays(st, dcls, field, sort)
         else:
@@ -325,12 +333,38 @@ class Task:
         if d is None:
             raise Unsupported(f"field {cls}.{field} is not declared in the sidecar (contract/code mismatch)")
         dcls, sort = d
+        if sort == "py":
+            self.dropped.add("stores to python-level fields (declared 'py' in the sidecar: not read by any verified code)")
+            return
+        if isinstance(sort, str) and sort.startswith("dotted:"):
+            if not (isinstance(val, (VDotted, VFunc)) and (getattr(val, "path", None) == sort[7:] or getattr(val, "contract", None) == sort[7:])):
+                raise Unsupported(f"field {cls}.{field} is declared to hold {sort[7:]} but {val} is stored (contract/code mismatch)")
+            return
+        if isinstance(val, PyVal) and isinstance(sort, RefSort) and "callable_of" in self.ctx.classes.get(sort.cls, {}):
+            val = self.wrap_callable(st, val, sort)
         val = coerce(val, sort)
         arrs = self.heap_arrays(st, dcls, field, sort)
         st.heap[(dcls, field)] = [z3.Store(a, obj.z, c) for a, c in zip(arrs, val.comps)]
 
+    def wrap_callable(self, st, val, sort):
+        """a python callable stored in a field of a 'callable object' class: fresh object whose link field
+        points at the receiver of the bound method (or None for any other callable)"""
+        co = self.ctx.classes[sort.cls]["callable_of"]
+        w = vref(z3.Const(fresh_name(f"wrap.{sort.cls}"), Ref), sort.cls)
+        st.assume(w.z != null)
+        link = co["link"]
+        if isinstance(val, VFunc) and val.contract == co["method"] and val.bound_self is not None:
+            self.write_field(st, w, link, val.bound_self)
+        elif isinstance(val, VPartial) and val.func.contract in co.get("plain", []):
+            self.write_field(st, w, link, VNONE)
+        else:
+            raise Unsupported(f"callable {val} stored where the sidecar expects {co}")
+        return w
+
     def havoc_field(self, st, dcls, field, obj=None):
         sort = self.ctx.classes[dcls]["fields"][field]
+        if isinstance(sort, str):
+            return   # python-level / dotted fields carry no symbolic state
         arrs = self.heap_arrays(st, dcls, field, sort)
         if obj is None:
             st.heap[(dcls, field)] = [z3.Const(fresh_name(f"H.{dcls}.{field}.{i}"), a.sort()) for i, a in enumerate(arrs)]
@@ -382,6 +416,7 @@ class Task:
             if s is None:
                 raise Unsupported(f"{self.label}: parameter {n} has no sort in the contract")
             if s == "py":
+                st.locals[n] = VOpaque(n)
                 continue
             sort = parse_sort(s)
             st.locals[n] = V(sort, [z3.Const(f"{n}.{k}", cs) for k, cs in enumerate(sort.comps())])
@@ -429,7 +464,8 @@ class Task:
         if not self.feasible(st):
             return
         self.paths += 1
-        env = dict(self.old_locals)
+        env = {k: v for k, v in st.locals.items() if k not in self.old_locals}
+        env.update(self.old_locals)     # parameter names denote entry values; other locals their final values
         if o.kind in (Outcome.NORMAL, Outcome.RETURN):
             if o.val is not None:
                 env["result"] = o.val
@@ -470,7 +506,7 @@ class Task:
         for m in c.modifies:
             m = m.strip()
             if m.endswith("[*]"):
-                cn, f = m[:-3].split(".")
+                cn, f = m[:-3].rsplit(".", 1)
                 whole.add((cn, f))
             elif "." in m:
                 ox, f = m.rsplit(".", 1)
@@ -807,7 +843,16 @@ class Task:
                             attrs.add(mangle(x.attr, self.defcls))
             if isinstance(n, ast.Call):
                 f = n.func
-                calls.add(f.attr if isinstance(f, ast.Attribute) else f.id if isinstance(f, ast.Name) else "?")
+                if isinstance(f, ast.Attribute):
+                    calls.add(f.attr)
+                    if (self.src.relpath, ast.unparse(f)) in self.ctx.event_calls:
+                        calls.add(self.ctx.event_calls[(self.src.relpath, ast.unparse(f))])
+                elif isinstance(f, ast.Name):
+                    calls.add(f.id)
+                    if f.id in st.locals and not isinstance(st.locals[f.id], VBuiltin) or f.id in assigned_names(node):
+                        calls.add("__call__")      # a local variable holding some callable object
+                else:
+                    calls.add("__call__")
         return assigned, attrs, calls
 
     def apply_loop_havoc(self, node, st, spec):
@@ -825,7 +870,7 @@ class Task:
         # callee frames, over-approximated by short name
         for cname, c in self.ctx.contracts.items():
             short = cname.split(".")[-1]
-            if short in calls or (short == "__call__") or cname in calls:
+            if short in calls or cname in calls:
                 self.havoc_modifies(st, c.modifies, None, whole=True)
         self.havoc_modifies(st, spec.get("modifies", []), st.locals.get("self"), whole=True)
         for v in spec.get("havoc_locals", []):
@@ -836,7 +881,7 @@ class Task:
         for m in mods:
             m = m.strip()
             if m.endswith("[*]"):
-                cn, f = m[:-3].split(".")
+                cn, f = m[:-3].rsplit(".", 1)
                 self.havoc_field(st, cn, f)
             elif "." in m:
                 objx, f = m.rsplit(".", 1)
@@ -1115,8 +1160,6 @@ class Task:
             d = self.ctx.field_decl(cls, attr)
             if d is not None:
                 self.safety_nonnull(st, obj, node)
-                if d[1] == "py":
-                    raise Unsupported(f"read of python-level field {cls}.{attr}")
                 return [(st, self.read_field(st, obj, attr), None)]
             m = self.ctx.find_method(cls, attr)
             if m:
@@ -1124,11 +1167,26 @@ class Task:
                 return [(st, VFunc(m, obj), None)]
             if attr == "__dict__":
                 return [(st, VDictOf(obj), None)]
+            cv = self.class_const(cls, attr)
+            if cv is not None:
+                return [(st, cv, None)]
             raise Unsupported(f"attribute {cls}.{attr} is neither a declared field nor a contracted method "
                               f"(contract/code mismatch, line {node.lineno})")
         if isinstance(obj, VFunc) and attr == "__func__":
             return [(st, obj, None)]
         raise Unsupported(f"attribute .{attr} of {obj} (line {node.lineno})")
+
+    def class_const(self, cls, attr):
+        """class-level constant assignment read from the source (walks the declared bases)"""
+        for c in self.ctx.mro(cls):
+            short = c.split(".")[-1]
+            for n in ast.walk(self.src.tree):
+                if isinstance(n, ast.ClassDef) and n.name == short:
+                    for b in n.body:
+                        if isinstance(b, ast.Assign) and len(b.targets) == 1 and isinstance(b.targets[0], ast.Name) \
+                                and b.targets[0].id == attr and isinstance(b.value, ast.Constant):
+                            return const_value(b.value.value)
+        return None
 
     def ex_UnaryOp(self, node, st):
         res = []
@@ -1382,6 +1440,15 @@ class Task:
     # ---------------------------------------------------------------- calls
     def ex_Call(self, node, st):
         f = node.func
+        ftxt = ast.unparse(f)
+        if (self.src.relpath, ftxt) in self.ctx.event_calls:
+            self.dropped.add(f"arguments of {ftxt}(...) (the call itself is an event with a contract)")
+            return self.call_contract(st, self.ctx.contracts[self.ctx.event_calls[(self.src.relpath, ftxt)]], None, [], {}, node)
+        # list mutators on locals / fields: x.append(v), x.clear()
+        if isinstance(f, ast.Attribute) and f.attr in ("append", "clear") and not self.is_noop_call(f, st):
+            r = self.try_list_method(node, st)
+            if r is not None:
+                return r
         # no-op calls whose arguments are not evaluated (logging)
         if self.is_noop_call(f, st):
             self.dropped.add("logger.* / print calls (arguments not evaluated)")
@@ -1408,6 +1475,32 @@ class Task:
                 res += self.call_value(s3, fv, pos, kw, node)
         return res
 
+    def try_list_method(self, node, st):
+        f = node.func
+        res = []
+        for s2, cont, e in self.ev(f.value, st):
+            if e is not None:
+                res.append((s2, None, e)); continue
+            if not (isinstance(cont, V) and isinstance(cont.sort, SeqSort)):
+                return None
+            if f.attr == "clear":
+                new = V(cont.sort, [z3.IntVal(0)] + cont.comps[1:])
+                for s3 in self.assign_to(_as_store(f.value), new, s2):
+                    res.append((s3, VNONE, None) if not isinstance(s3, Outcome) else (s3.st, None, s3.exc))
+                continue
+            for s3, v, e3 in self.ev(node.args[0], s2):
+                if e3 is not None:
+                    res.append((s3, None, e3)); continue
+                if isinstance(v, VPyTuple):
+                    v = vtuple(v.items)
+                c2 = cont
+                if cont.sort.elem == NONE:   # first append to an empty literal fixes the element sort
+                    c2 = seq_empty(v.sort)
+                new = seq_append(c2, v)
+                for s4 in self.assign_to(_as_store(f.value), new, s3):
+                    res.append((s4, VNONE, None) if not isinstance(s4, Outcome) else (s4.st, None, s4.exc))
+        return res
+
     def is_noop_call(self, f, st):
         if isinstance(f, ast.Attribute):
             base = f.value
@@ -1425,6 +1518,10 @@ class Task:
             if c is None:
                 raise Unsupported(f"no contract {fv.contract}")
             return self.call_contract(st, c, fv.bound_self, pos, kw, node)
+        if isinstance(fv, VDotted) and fv.path == "functools.partial":
+            if not isinstance(pos[0], VFunc):
+                raise Unsupported("partial of a non-contracted callable")
+            return [(st, VPartial(pos[0], pos[1:]), None)]
         if isinstance(fv, VDotted):
             # constructor of a class with an __init__ contract, or an unknown external
             init = f"{fv.path}.__init__"
@@ -1441,6 +1538,8 @@ class Task:
                 return self.call_contract(st, self.ctx.contracts[m], fv, pos, kw, node)
         if isinstance(fv, VSuperMethod):
             return self.call_contract(st, self.ctx.contracts[fv.contract], fv.self_v, pos, kw, node)
+        if isinstance(fv, VPartial):
+            return self.call_value(st, fv.func, fv.args + pos, kw, node)
         raise Unsupported(f"call of {fv} (line {node.lineno})")
 
     def call_ctor(self, st, cls, c, pos, kw, node):
@@ -1452,7 +1551,7 @@ class Task:
             res.append((s2, obj if e is None else None, e))
         return res
 
-    def bind_args(self, c, self_v, pos, kw, node):
+    def bind_args(self, c, self_v, pos, kw, node, st=None):
         """bind actual arguments to the contract's parameter names"""
         names = list(c.params.keys())
         env = {}
@@ -1474,14 +1573,20 @@ class Task:
                 env[n] = const_value(d[0]) if isinstance(d, tuple) else const_value(d)
             s = c.params[n]
             if s != "py" and isinstance(env[n], V):
-                env[n] = coerce(env[n], parse_sort(s))
+                ps = parse_sort(s)
+                if isinstance(env[n].sort, OptSort) and not isinstance(ps, OptSort):
+                    if st is not None:
+                        self.oblige(st, f"{self.label}: safety: argument {n} of {c.name} is not None (line +{getattr(node, 'lineno', self.fn.lineno) - self.fn.lineno})",
+                                    z3.Not(env[n].comps[0]), "safety", getattr(node, "lineno", None))
+                    env[n] = V(env[n].sort.inner, env[n].comps[1:])
+                env[n] = coerce(env[n], ps)
             elif s != "py" and isinstance(env[n], VPyTuple):
                 env[n] = coerce(vtuple(env[n].items), parse_sort(s))
         return env
 
     def call_contract(self, st, c, self_v, pos, kw, node):
         """modular call: assert requires/site asserts, havoc frame, assume ensures; fork on raise"""
-        env = self.bind_args(c, self_v, pos, kw, node)
+        env = self.bind_args(c, self_v, pos, kw, node, st)
         self_cls = self_v.sort.cls if self_v is not None else None
         env["__self_cls__"] = self_cls
         ln = getattr(node, "lineno", self.fn.lineno) - self.fn.lineno
@@ -1494,7 +1599,7 @@ class Task:
             o = self.spec(st, ox, env, None, self_cls)
             for k, t in self.ctx.invariants(o.sort.cls).items():
                 self.oblige(st, f"{where} invariant {k} of {ox} before call", self.spec_bool(st, t, {"self": o}, self.old, o.sort.cls), "invariant", getattr(node, "lineno", None))
-        if c.inv and self_v is not None and c.kind == "repo":
+        if c.inv and not c.ctor and self_v is not None and c.kind == "repo":
             # re-entrant call of a method of the same object: its invariant is a precondition
             for k, t in self.ctx.invariants(self_cls).items():
                 self.oblige(st, f"{where} invariant {k} before call", self.spec_bool(st, t, {"self": self_v}, self.old, self_cls), "invariant", getattr(node, "lineno", None))
@@ -1684,6 +1789,34 @@ def _get_attr(self, st, obj, attr, node):
 
 
 Task.get_attr = _get_attr
+
+
+def assigned_names(node):
+    out = set()
+    for n in ast.walk(node):
+        if isinstance(n, ast.Name) and isinstance(n.ctx, ast.Store):
+            out.add(n.id)
+    return out
+
+
+def _as_store(t):
+    t2 = ast.parse(ast.unparse(t) + " = 0").body[0].targets[0]
+    return t2
+
+
+class VOpaque(PyVal):
+    """a python-level value the verified code only passes around (declared 'py' in the sidecar)"""
+
+    def __init__(self, name):
+        self.name = name
+
+    def __repr__(self):
+        return f"VOpaque({self.name})"
+
+
+class VPartial(PyVal):
+    def __init__(self, func, args):
+        self.func, self.args = func, args
 
 
 def _as_load(t):
